@@ -86,6 +86,9 @@ func (k *keepFunc) Keep(gid glyph.ID) bool {
 			// If a mark filtering set is specified, this supersedes any mark
 			// attachment type indication in the lookup flag.
 			set := k.Meta.MarkFilteringSet
+			if int(set) >= len(k.Gdef.MarkGlyphSets) {
+				return false
+			}
 			if k.Gdef.MarkGlyphSets == nil || !k.Gdef.MarkGlyphSets[set][gid] {
 				return false
 			}
